@@ -83,7 +83,7 @@ class Gen:
 
     def doc(self):
         r = self.r
-        return dict(dyn=0, prio=1 if r.random() < 0.12 else 0, vars=self.vars(), chans=self.chans(), templs=[self.templ(k) for k in range(r.randrange(1, 4))])
+        return dict(dyn=0, prio=1 if r.random() < 0.12 else 0, chanprio=r.randrange(1, 6) if r.random() < 0.15 else 0, vars=self.vars(), chans=self.chans(), templs=[self.templ(k) for k in range(r.randrange(1, 4))])
 
 
 def side_txt(rng, s):
@@ -150,6 +150,9 @@ def decls(vs, cs, rng, pfx):
 
 def render(d, rng):
     glob = 'clock x, y; hybrid clock h; int i, j; double d, e; bool b, c;\nconst int ci = 2; const double cd = 1.5; const double cda[2] = {1.5, 2.5}; typedef double real_t; real_t td;\nvoid fv(double p) { }\n' + decls(d['vars'], d['chans'], rng, 'g')
+    if d.get('chanprio'):
+        # a channel priority declaration of every shape, over two broadcast channels of its own (which restrict nothing themselves): with and without '<', with default
+        glob += '\nbroadcast chan pa, pb; chan priority %s;' % {1: 'pa < pb', 2: 'default < pa', 3: 'pa, pb', 4: 'pa', 5: 'pa, default'}[d['chanprio']]
     tx = []
     order = list(range(len(d['templs'])))
     rng.shuffle(order)
@@ -185,7 +188,7 @@ def doc_sx(d):
     for t in d['templs']:
         es = ' '.join('(edge %s %s)' % ('(guard %s)' % g_sx(e['guard']) if e['guard'] is not None else '(none)', us(e['upds'])) for e in t['edges'])
         ts.append('(templ %d %s %s (invs %s) (edges %s))' % (t['inst'], vs(t['vars']), cs(t['chans']), ' '.join(g_sx(g) for g in t['invs']), es))
-    return '(doc %d %d %s %s (templs %s))' % (d['dyn'], d['prio'], vs(d['vars']), cs(d['chans']), ' '.join(ts))
+    return '(doc %d %d %s %s (templs %s))' % (d['dyn'], 1 if (d['prio'] or d.get('chanprio')) else 0, vs(d['vars']), cs(d['chans']), ' '.join(ts))
 
 
 # ---- the specification, directly (mirrors Feature.v's spec_* predicates) ------------------------------------------
@@ -207,7 +210,7 @@ def spec_bad_rate(g):
 
 def spec(d):
     sym = any(v[1] and v[2] for v in d['vars']) or bool(d['dyn'])
-    sto = any(not c[1] for c in d['chans']) or bool(d['prio'])
+    sto = any(not c[1] for c in d['chans']) or bool(d['prio']) or bool(d.get('chanprio'))
     for t in d['templs']:
         if not t['inst']:
             continue
@@ -215,7 +218,7 @@ def spec(d):
         for e in t['edges']:
             sym = sym or any(u[0] == 'assign' and u[1] and not u[2] for u in e['upds']) or (e['guard'] is not None and spec_fp_compare(e['guard']))
         sto = sto or any(not c[1] for c in t['chans'])
-    return dict(symbolic_restricted=sym, stochastic_restricted=sto, priorities=bool(d['prio']))
+    return dict(symbolic_restricted=sym, stochastic_restricted=sto, priorities=bool(d['prio']) or bool(d.get('chanprio')))
 
 
 def check(run):
